@@ -11,7 +11,7 @@ import (
 
 // C03 — Mode composition truth table. The full grid
 //
-//	mode(6) x OCSP outcome(4) x aia_strict(2) x CRL outcome(5) x cdp_strict(2) x storage(2) x chain shape(3) = 2880
+//	mode(6) x OCSP outcome(4) x aia_strict(2) x CRL outcome(5) x cdp_strict(2) x storage(2) x chain shape(4) = 3840
 //
 // is one world per cell: the validator is built from JSON through Provision (so mode parsing and the
 // default are part of what is checked), the responder and the CRL origin are scripted to produce
@@ -22,9 +22,9 @@ import (
 var c03modes = []string{"", "prefer_ocsp", "prefer_crl", "ocsp_only", "crl_only", "disabled"}
 var c03ocsp = []string{"no-aia", "good", "revoked", "unavailable"}
 var c03crl = []string{"none-known", "listed", "not-listed", "cdp-unavailable", "internal-failure"}
-var c03chains = []string{"ee-ca", "ee-int-root", "two-chains"}
+var c03chains = []string{"ee-ca", "ee-int-root", "two-chains", "leaf-only"}
 
-const c03cells = 6 * 4 * 2 * 5 * 2 * 2 * 3 // = 2880
+const c03cells = 6 * 4 * 2 * 5 * 2 * 2 * 4 // = 3840
 
 func init() {
 	register(&PropDef{ID: "C03", Plan: func(tier string) Plan {
@@ -35,7 +35,7 @@ func init() {
 	}, Run: runC03})
 }
 
-const c03rule = "one run = one cell of mode(unset, prefer_ocsp, prefer_crl, ocsp_only, crl_only, disabled) x OCSP outcome(no AIA, good, revoked, unavailable) x aia_strict x CRL outcome(none known, listed, not listed, CDP unavailable, internal failure = the stored record of the listed certificate is undecodable at lookup time) x cdp_strict x storage(memory, disk) x chain shape(EE+CA, EE+intermediate+root, two chains); oracle: reject iff (ocspOn and (revoked or (unavailable and aia_strict))) or (crlOn and (listed or internal failure or (cdp unavailable and cdp_strict))), plus side effects: disabled => no request and no work_dir operation after Provision, ocsp_only => no CRL origin contacted and work_dir untouched, crl_only => no responder contacted; non-trivial = the expected verdict is reject or a mechanism is disabled by the mode"
+const c03rule = "one run = one cell of mode(unset, prefer_ocsp, prefer_crl, ocsp_only, crl_only, disabled) x OCSP outcome(no AIA, good, revoked, unavailable) x aia_strict x CRL outcome(none known, listed, not listed, CDP unavailable, internal failure = the stored record of the listed certificate is undecodable at lookup time) x cdp_strict x storage(memory, disk) x chain shape(EE+CA, EE+intermediate+root, two chains, directly trusted leaf alone: for that shape only the CRL-side rejections are asserted, the CRL signer being configured); oracle: reject iff (ocspOn and (revoked or (unavailable and aia_strict))) or (crlOn and (listed or internal failure or (cdp unavailable and cdp_strict))), plus side effects: disabled => no request and no work_dir operation after Provision, ocsp_only => no CRL origin contacted and work_dir untouched, crl_only => no responder contacted; non-trivial = the expected verdict is reject or a mechanism is disabled by the mode"
 
 func runC03(h *Harness) {
 	i := h.Idx
@@ -54,7 +54,7 @@ func runC03(h *Harness) {
 	i /= 2
 	storage := []string{"memory", "disk"}[i%2]
 	i /= 2
-	chainShape := c03chains[i%3]
+	chainShape := c03chains[i%4]
 	sc := h.R.Scenario
 	sc["mode"], sc["ocsp"], sc["aia_strict"], sc["crl"], sc["cdp_strict"], sc["storage"], sc["chain"] = mode, oc, aiaStrict, cr, cdpStrict, storage, chainShape
 
@@ -62,6 +62,11 @@ func runC03(h *Harness) {
 	loc := w.NewLocation(LocOpts{Name: "L1", URL: "http://crl.sim/a.crl", Issuer: w.A, NVers: 1, Extra: 2, Width: 8})
 	resp := w.NewResponder("http://ocsp.sim/a", w.A)
 	cfg := NodeCfg{Mode: mode, Storage: storage, UpdateInterval: "10m", CDPStrict: cdpStrict, AIAStrict: aiaStrict}
+	if chainShape == "leaf-only" {
+		// the client certificate itself is in the trust pool: the verified chain holds nothing but the leaf, so the
+		// CRL's signer can only come from the configuration
+		cfg.TrustedSigFiles = []string{h.WriteFile("trust/a.pem", CertPEM(w.A.Cert))}
+	}
 	n := h.NewNode("n1", cfg)
 	if err := h.Provision(n); err != nil {
 		h.Violation("C03.provision", "provision-failed:"+mode, "provisioning mode %q failed: %v", mode, err)
@@ -127,6 +132,9 @@ func runC03(h *Harness) {
 	if chainShape == "two-chains" {
 		chains = append(chains, chains[0])
 	}
+	if chainShape == "leaf-only" {
+		chains = [][]*x509.Certificate{{cert}}
+	}
 	hs := h.Handshake(n, "hs", chains)
 	h.Quiesce()
 	h.R.Checks++
@@ -138,7 +146,18 @@ func runC03(h *Harness) {
 	}
 	verdict := errStr(hs.Err)
 	cell := fmt.Sprintf("mode=%q ocsp=%s aia_strict=%v crl=%s cdp_strict=%v storage=%s chain=%s", mode, oc, aiaStrict, cr, cdpStrict, storage, chainShape)
-	if reject != (hs.Err != nil) {
+	if chainShape == "leaf-only" {
+		// without an issuer in the chain OCSP cannot be asked and an accept is not demanded; what the CRL side alone
+		// requires still holds: listed / internal failure / strict without a CRL => reject
+		crlReject := crlOn && (cr == "listed" || cr == "internal-failure" || (cr == "cdp-unavailable" && cdpStrict))
+		if crlReject && hs.Err == nil {
+			modeClass := mode
+			if mode == "" {
+				modeClass = "unset"
+			}
+			h.Violation("C03.truth-table", "accepted-should-reject:"+modeClass+":leaf-only:crl="+cr, "cell %s: expected reject, got accept", cell)
+		}
+	} else if reject != (hs.Err != nil) {
 		class := "accepted-should-reject"
 		if !reject {
 			class = "rejected-should-accept"
